@@ -132,7 +132,7 @@ CHECKS = [
     _c("C24", "Lean theorems on the model of main/CliArgs/run_buf + end-to-end runs of the binary in script, -c and shebang modes",
        "Kernel-checked: -c prints exactly the script's output plus the final value's line (only when the program ran to its end with a non-null value), diagnostics ⇒ nothing printed, argv per mode. "
        "Generated programs × argument vectors × {file, -c, #! file}: stdout relation, argv as seen by the program, shebang-insensitivity (line numbers shifted), the gate.",
-       "clap's grouping of the command line is assumed. Open: shebang_is_comment on the scanner model."),
+       "Also kernel-checked on the scanner model: a leading `#!` line (any `#` or `//` comment line) changes nothing but the line numbers — scan(\"#!…\\n\" ++ s) is scan(s) with every line + 1 (shebang_is_comment, by an offset-simulation lemma for the whole scanner). clap's grouping of the command line is assumed."),
 ]
 
 _claimed = {c["property_id"] for c in CHECKS}
